@@ -47,6 +47,25 @@ def _is_values(t):
     return a is not None and a[0] == "mcall" and a[2] in ("values",) and _is_detectors(a[1])
 
 
+def _over_members(it):
+    """does a loop over `it` visit every member once?  the dict itself, its keys / values / items, or a list of one of those"""
+    a = it.single_atom() if it is not None else None
+    if a is not None and a[0] == "call" and a[1] in ("list", "tuple") and len(a[2]) == 1 and not a[3]:
+        return _over_members(a[2][0])
+    if _is_detectors(it):
+        return True
+    return a is not None and a[0] == "mcall" and a[2] in ("keys", "values", "items") and not a[3] and _is_detectors(a[1])
+
+
+def member_loop(tr, calls):
+    """the loop the member calls sit in (innermost), when it is one unbroken loop over all members"""
+    lids = {loop_of(tr, e) for e in calls}
+    if len(lids) != 1 or None in lids:
+        return None
+    L = tr.loops.get(next(iter(lids)))
+    return L if L is not None and _over_members(L["iter"]) and not L["break"] else None
+
+
 def loop_of(tr, ev):
     ls = [p.cond.single_atom()[1] for p in ev.pc if (p.cond.single_atom() or ("",))[0] == "inloop"]
     return ls[-1] if ls else None
@@ -80,10 +99,9 @@ def fanout(ctx, cname, meth):
     site = "%s.%s" % (cname, meth)
     tr = ctx.trace(cname, meth)
     mc = member_calls(tr)
-    loops = [v for k, v in tr.loops.items() if v["func"].qualname in ("Ensemble." + meth, site)]
-    ctx.ob("MC", site, "one loop over the members", len(loops) == 1 and loops[0]["iter"] == A("detectors") and not loops[0]["break"],
-           "loops: %s" % [q.short(l["iter"], 40) for l in loops])
     calls = [e for e in mc if e.callee[-1] == meth]
+    ctx.ob("MC", site, "one loop over the members", member_loop(tr, calls) is not None,
+           "loops: %s" % [q.short(l["iter"], 40) for l in tr.loops.values()])
     ctx.ob("MC", site, "each member's %s is called exactly once per iteration" % meth, len(calls) == 1 and loop_of(tr, calls[0]) is not None
            and sum(1 for p in calls[0].pc if (p.cond.single_atom() or ("",))[0] != "inloop") == 0,
            "found %d call(s); guards: %s" % (len(calls), [q.short(p.cond, 50) for e in calls for p in e.pc]), calls[0] if calls else None)
@@ -108,7 +126,7 @@ def fanout(ctx, cname, meth):
     ctx.ob("FWD", site, "a member receives its own selector applied to the caller's X", ok,
            "X=%s" % (q.short(x, 100) if x is not None else None), e)
     # the parameter X is not rebound inside the loop (no column leak between members)
-    reb = [l for l in tr.of("local") if l.name in DATA and l.func.qualname in ("Ensemble." + meth, site)]
+    reb = [l for l in tr.of("local") if l.name in DATA and (q.stack_has(l, "Ensemble." + meth) or q.stack_has(l, site))]
     ctx.ob("FWD", site, "X / y_true / y_pred are not reassigned (no leak of one member's columns to the next)", not reb, "", reb[0] if reb else None)
 
 
@@ -117,8 +135,7 @@ def reset(ctx, cname):
     tr = ctx.trace(cname, "reset")
     mc = member_calls(tr)
     calls = [e for e in mc if e.callee[-1] == "reset"]
-    loops = [v for k, v in tr.loops.items() if v["func"].qualname in ("Ensemble.reset", site)]
-    ok = len(loops) == 1 and loops[0]["iter"] == A("detectors") and not loops[0]["break"] and len(calls) == 1 and not calls[0].args and \
+    ok = member_loop(tr, calls) is not None and len(calls) == 1 and not calls[0].args and \
         sum(1 for p in calls[0].pc if (p.cond.single_atom() or ("",))[0] != "inloop") == 0
     ctx.ob("MC", site, "reset reaches every member", ok, "", calls[0] if calls else None)
     ctx.ob("FOREIGN", site, "only reset is called on members", len(mc) == len(calls), "")
@@ -142,15 +159,15 @@ def views(ctx, cname):
     g = ctx.prog.find_property(ci, "retraining_recs")
     ctx.require(g is not None, cname + ".retraining_recs property")
     t = Evaluator(ctx.prog, ci).run(g[0])
-    muts = [e for e in t.of("localmut") if e.how == "setitem"]
-    ok = len(muts) == 1
+    db = q.dict_build(t, t.retval) if t.retval is not None else None
+    ok = db is not None
     if ok:
-        e = muts[0]
-        key = e.path[0][1]
-        va = e.value.single_atom()
-        ok = (key.single_atom() or ("",))[0] == "iterkey" and va is not None and va[0] == "getattr" and va[2] == "retraining_recs" and va[1] == q.sub(A("detectors"), key)
-        gs = [p for p in e.pc if (p.cond.single_atom() or ("",))[0] != "inloop"]
-        ok = ok and len(gs) == 1 and (gs[0].cond.single_atom() or ("", ""))[:2] == ("call", "hasattr")
+        key, val, conds, it = db
+        va = val.single_atom()
+        ita = it.single_atom()
+        ok = ita is not None and ita[0] == "mcall" and ita[2] == "items" and _is_detectors(ita[1]) and \
+            (key.single_atom() or ("",))[0] == "iterkey" and va is not None and va[0] == "getattr" and va[2] == "retraining_recs" and va[1] == q.sub(A("detectors"), key)
+        ok = ok and len(conds) == 1 and (conds[0].single_atom() or ("", ""))[:2] == ("call", "hasattr") and conds[0].single_atom()[2] == (va[1], const("retraining_recs"))
     ctx.ob("FRM", cname + ".retraining_recs", "reports the retraining_recs of every member that has them", ok, "")
 
 
@@ -256,4 +273,4 @@ def construction(ctx, cname):
     rv = tv.retval
     base = q.unmut(rv) if rv is not None else None
     ctx.ob("FRM", cname + ".retraining_recs", "the report starts empty and gains one entry per member that has a recommendation",
-           base is not None and (base in (atom(("dict", ())), atom(("call", "dict", (), ()))) or (base.single_atom() or ("",))[0] == "loopvar"), q.short(rv, 100) if rv is not None else "")
+           rv is not None and q.dict_build(tv, rv) is not None, q.short(rv, 100) if rv is not None else "")
